@@ -1,12 +1,27 @@
 package main
 
 // Replay of solver counterexamples against the real code (DESIGN section 5).
+//
+// A sat model gives values for the unit's inputs. A generated in-package test
+// builds them, calls the REAL function through `go test -overlay` (nothing is
+// written into the repository) and prints what happened. Safety obligations
+// are reproduced by the panic; postconditions are reproduced by binding the
+// observed results into the postcondition and asking the solver whether it is
+// false for them.
 
 import (
+	"bytes"
+	"context"
 	"encoding/json"
 	"fmt"
+	"go/types"
 	"os"
+	"os/exec"
 	"path/filepath"
+	"sort"
+	"strconv"
+	"strings"
+	"time"
 )
 
 type replayFile struct {
@@ -26,14 +41,20 @@ type replayFile struct {
 	SMT        string            `json:"smt,omitempty"`
 }
 
-func writeReplay(dir, prop string, o *Obligation, r *UnitResult, e *Engine, note string) string {
+func newReplayFile(prop string, o *Obligation) *replayFile {
 	rf := &replayFile{Property: prop, Obligation: trimPkg(o.Name), Kind: o.Kind, Unit: trimPkg(o.Unit), At: o.Pos,
-		Status: o.Status, Solver: o.Solver, Model: o.Model, SolverOut: firstLines(o.Output, 20), ReplayNote: note}
+		Status: o.Status, Solver: o.Solver, Model: o.Model, SolverOut: firstLines(o.Output, 20)}
 	if o.SMT != "" {
 		if b, err := os.ReadFile(o.SMT); err == nil && len(b) < 200000 {
 			rf.SMT = string(b)
 		}
 	}
+	return rf
+}
+
+func writeReplay(dir, prop string, o *Obligation, r *UnitResult, e *Engine, note string) string {
+	rf := newReplayFile(prop, o)
+	rf.ReplayNote = note
 	return saveReplay(dir, o, rf)
 }
 
@@ -46,13 +67,7 @@ func saveReplay(dir string, o *Obligation, rf *replayFile) string {
 
 // replayObligation tries to reproduce a failed obligation on the real code.
 func replayObligation(dir, prop string, o *Obligation, r *UnitResult, e *Engine) (string, bool) {
-	rf := &replayFile{Property: prop, Obligation: trimPkg(o.Name), Kind: o.Kind, Unit: trimPkg(o.Unit), At: o.Pos,
-		Status: o.Status, Solver: o.Solver, Model: o.Model, SolverOut: firstLines(o.Output, 20)}
-	if o.SMT != "" {
-		if b, err := os.ReadFile(o.SMT); err == nil && len(b) < 200000 {
-			rf.SMT = string(b)
-		}
-	}
+	rf := newReplayFile(prop, o)
 	if o.Status != "sat" || o.Model == nil {
 		rf.ReplayNote = fmt.Sprintf("no model (solver answered %s): not executed", o.Status)
 		return saveReplay(dir, o, rf), false
@@ -65,6 +80,543 @@ func replayObligation(dir, prop string, o *Obligation, r *UnitResult, e *Engine)
 	return saveReplay(dir, o, rf), ok
 }
 
+// ReplayInfo is collected while the unit is executed symbolically.
+type ReplayInfo struct {
+	PkgDir   string
+	PkgName  string
+	PkgPath  string
+	Call     string // call expression template with %s args
+	Recv     *ModelInput
+	Params   []replayParam
+	Results  []replayResult
+	Posts    map[string]*Term // label -> postcondition over entry inputs and ResultSyms
+	PostAsm  []*Term          // entry assumptions (requires, type facts)
+	ErrIDs   map[string]int64
+	Arith    *Arith
+	Inputs   []ModelInput
+	Unsupp   string // reason the unit cannot be replayed
+	FuncName string
+	IsMethod bool
+	RecvPtr  bool
+	RecvType string
+}
+
+type replayParam struct {
+	Name string
+	T    types.Type
+}
+
+type replayResult struct {
+	Name string
+	T    types.Type
+	V    Value
+}
+
+// buildReplayInfo: called at the end of Exec.run.
+func (x *Exec) buildReplayInfo() *ReplayInfo {
+	u := x.unit
+	ri := &ReplayInfo{PkgPath: u.Pkg.PkgPath, PkgName: u.Pkg.Types.Name(), Posts: map[string]*Term{}, ErrIDs: x.errIDs,
+		Arith: x.ar, Inputs: x.inputs, FuncName: u.Fn.Name()}
+	if len(u.Pkg.GoFiles) > 0 {
+		ri.PkgDir = filepath.Dir(u.Pkg.GoFiles[0])
+	}
+	sig := x.sig
+	supported := func(t types.Type) bool {
+		if _, ok := intInfoOf(t); ok {
+			return true
+		}
+		if isBoolType(t) || isStringType(t) {
+			return true
+		}
+		if ok, _ := sliceElemBasic(t); ok {
+			return true
+		}
+		return false
+	}
+	if sig.Recv() != nil {
+		ri.IsMethod = true
+		rt := sig.Recv().Type()
+		if p, ok := rt.Underlying().(*types.Pointer); ok {
+			ri.RecvPtr = true
+			rt = p.Elem()
+		}
+		if _, ok := rt.Underlying().(*types.Struct); !ok && !supported(rt) {
+			ri.Unsupp = "receiver type " + rt.String()
+		}
+		ri.RecvType = types.TypeString(rt, func(p *types.Package) string {
+			if p == u.Pkg.Types {
+				return ""
+			}
+			return p.Name()
+		})
+	}
+	for i := 0; i < sig.Params().Len(); i++ {
+		p := sig.Params().At(i)
+		ok := supported(p.Type())
+		if !ok {
+			if pt, isPtr := p.Type().Underlying().(*types.Pointer); isPtr {
+				if _, isSt := pt.Elem().Underlying().(*types.Struct); isSt {
+					ok = true
+				}
+			}
+		}
+		if !ok {
+			ri.Unsupp = "parameter type " + p.Type().String()
+		}
+		name := p.Name()
+		if name == "" || name == "_" {
+			name = fmt.Sprintf("arg%d", i)
+		}
+		ri.Params = append(ri.Params, replayParam{name, p.Type()})
+	}
+	// generic postconditions over fresh result symbols
+	st := x.entry.clone()
+	for i, r := range x.results {
+		v := x.fresh(st, r.Type(), "out_"+x.resNames[i])
+		st.vars[r] = v
+		ri.Results = append(ri.Results, replayResult{x.resNames[i], r.Type(), v})
+	}
+	nerr := len(x.errs)
+	if x.c != nil {
+		oldPos := x.curPos
+		x.curPos = 0
+		for _, en := range x.c.Ensures {
+			ri.Posts[en.Label] = x.cbool(en.Expr, x.cctx(st, en))
+		}
+		x.curPos = oldPos
+	}
+	x.errs = x.errs[:nerr]
+	ri.PostAsm = st.assume
+	return ri
+}
+
+func goIntLit(v string, t types.Type) (string, bool) {
+	ii, ok := intInfoOf(t)
+	if !ok {
+		return "", false
+	}
+	w := 0
+	if ii.Signed {
+		w = ii.W
+	}
+	s, ok := smtValueToInt(v, w)
+	if !ok {
+		return "", false
+	}
+	if !ii.Signed && strings.HasPrefix(s, "-") {
+		return "", false
+	}
+	return s, true
+}
+
+func typeStr(t types.Type, self *types.Package, imports map[string]string) string {
+	return types.TypeString(t, func(p *types.Package) string {
+		if p == self {
+			return ""
+		}
+		imports[p.Path()] = p.Name()
+		return p.Name()
+	})
+}
+
+// bytesLit renders a byte slice literal from the model.
+func bytesLit(o *Obligation, name string) (string, int, bool) {
+	ls, ok := smtValueToInt(o.Model[name+".len"], 64)
+	if !ok {
+		return "", 0, false
+	}
+	n, err := strconv.Atoi(ls)
+	if err != nil || n < 0 || n > 1<<20 {
+		return "", 0, false
+	}
+	var sb strings.Builder
+	fmt.Fprintf(&sb, "func() []byte { b := make([]byte, %d); ", n)
+	for i := 0; i < n && i < 48; i++ {
+		vs, ok := smtValueToInt(o.Model[fmt.Sprintf("%s[%d]", name, i)], 0)
+		if !ok {
+			vs = "0"
+		}
+		if vs != "0" {
+			fmt.Fprintf(&sb, "b[%d] = %s; ", i, vs)
+		}
+	}
+	sb.WriteString("return b }()")
+	return sb.String(), n, true
+}
+
 func runReplayTest(e *Engine, r *UnitResult, o *Obligation) (bool, string, string, string) {
-	return false, "replay generator not available for this unit shape", "", ""
+	ri := r.Replay
+	if ri == nil {
+		return false, "no replay information for this unit", "", ""
+	}
+	if ri.Unsupp != "" {
+		return false, "replay generator does not build inputs of this shape: " + ri.Unsupp, "", ""
+	}
+	u := r.Unit
+	imports := map[string]string{"fmt": "fmt", "testing": "testing", "errors": "errors"}
+	var body strings.Builder
+	var args []string
+	// literal for a named input
+	var lit func(name string, t types.Type) (string, bool)
+	lit = func(name string, t types.Type) (string, bool) {
+		if _, ok := intInfoOf(t); ok {
+			v, ok := goIntLit(o.Model[name], t)
+			if !ok {
+				return "", false
+			}
+			return fmt.Sprintf("%s(%s)", typeStr(t, u.Pkg.Types, imports), v), true
+		}
+		if isBoolType(t) {
+			v := o.Model[name]
+			if v != "true" && v != "false" {
+				return "", false
+			}
+			return v, true
+		}
+		if ok, _ := sliceElemBasic(t); ok {
+			l, _, ok := bytesLit(o, name)
+			if !ok {
+				return "", false
+			}
+			if isStringType(t) {
+				return fmt.Sprintf("%s(%s)", typeStr(t, u.Pkg.Types, imports), l), true
+			}
+			return fmt.Sprintf("%s(%s)", typeStr(t, u.Pkg.Types, imports), l), true
+		}
+		if pt, ok := t.Underlying().(*types.Pointer); ok {
+			if su, ok := pt.Elem().Underlying().(*types.Struct); ok {
+				if v, ok := smtValueToInt(o.Model[name], 0); ok && v == "0" {
+					return "nil", true
+				}
+				var fs []string
+				for i := 0; i < su.NumFields(); i++ {
+					f := su.Field(i)
+					if fl, ok := lit(name+"."+f.Name(), f.Type()); ok {
+						fs = append(fs, f.Name()+": "+fl)
+					}
+				}
+				return fmt.Sprintf("&%s{%s}", typeStr(pt.Elem(), u.Pkg.Types, imports), strings.Join(fs, ", ")), true
+			}
+		}
+		if su, ok := t.Underlying().(*types.Struct); ok {
+			var fs []string
+			for i := 0; i < su.NumFields(); i++ {
+				f := su.Field(i)
+				if fl, ok := lit(name+"."+f.Name(), f.Type()); ok {
+					fs = append(fs, f.Name()+": "+fl)
+				}
+			}
+			return fmt.Sprintf("%s{%s}", typeStr(t, u.Pkg.Types, imports), strings.Join(fs, ", ")), true
+		}
+		return "", false
+	}
+	sig := u.Fn.Type().(*types.Signature)
+	callee := ri.FuncName
+	if ri.IsMethod {
+		rl, ok := lit(sig.Recv().Name(), sig.Recv().Type())
+		if !ok || rl == "nil" {
+			return false, "cannot build the receiver from the model", "", ""
+		}
+		fmt.Fprintf(&body, "\trecv := %s\n", rl)
+		callee = "recv." + ri.FuncName
+	}
+	for i, p := range ri.Params {
+		l, ok := lit(p.Name, p.T)
+		if !ok {
+			return false, "model has no usable value for parameter " + p.Name, "", ""
+		}
+		fmt.Fprintf(&body, "\ta%d := %s\n", i, l)
+		args = append(args, fmt.Sprintf("a%d", i))
+	}
+	var outs []string
+	for i := range ri.Results {
+		outs = append(outs, fmt.Sprintf("r%d", i))
+	}
+	call := fmt.Sprintf("%s(%s)", callee, strings.Join(args, ", "))
+	if len(outs) > 0 {
+		fmt.Fprintf(&body, "\t%s := %s\n", strings.Join(outs, ", "), call)
+	} else {
+		fmt.Fprintf(&body, "\t%s\n", call)
+	}
+	// sentinels known to the unit
+	var sentinels []string
+	for k := range ri.ErrIDs {
+		if strings.HasPrefix(k, ri.PkgPath+".") {
+			sentinels = append(sentinels, strings.TrimPrefix(k, ri.PkgPath+"."))
+		}
+	}
+	sort.Strings(sentinels)
+	for i, res := range ri.Results {
+		switch {
+		case isErrorType(res.T) || errorLike(res.T):
+			fmt.Fprintf(&body, "\tif r%d == nil { fmt.Println(\"GVC-REPLAY out %s error nil\") } else {\n\t\tis := \"\"\n", i, res.Name)
+			for _, s := range sentinels {
+				fmt.Fprintf(&body, "\t\tif errors.Is(r%d, %s) { is += \"%s,\" }\n", i, s, s)
+			}
+			fmt.Fprintf(&body, "\t\tfmt.Printf(\"GVC-REPLAY out %s error nonnil %%s\\n\", is)\n\t}\n", res.Name)
+		case isBoolType(res.T):
+			fmt.Fprintf(&body, "\tfmt.Printf(\"GVC-REPLAY out %s bool %%v\\n\", r%d)\n", res.Name, i)
+		default:
+			if ii, ok := intInfoOf(res.T); ok {
+				conv := "uint64"
+				if ii.Signed {
+					conv = "int64"
+				}
+				fmt.Fprintf(&body, "\tfmt.Printf(\"GVC-REPLAY out %s int %%d\\n\", %s(r%d))\n", res.Name, conv, i)
+			} else if ok, _ := sliceElemBasic(res.T); ok {
+				fmt.Fprintf(&body, "\tfmt.Printf(\"GVC-REPLAY out %s bytes %%d %%x\\n\", len(r%d), []byte(r%d))\n", res.Name, i, i)
+			} else {
+				fmt.Fprintf(&body, "\t_ = r%d\n\tfmt.Println(\"GVC-REPLAY out %s opaque\")\n", i, res.Name)
+			}
+		}
+	}
+	var src strings.Builder
+	fmt.Fprintf(&src, "package %s\n\nimport (\n", ri.PkgName)
+	var ips []string
+	for p := range imports {
+		ips = append(ips, p)
+	}
+	sort.Strings(ips)
+	for _, p := range ips {
+		fmt.Fprintf(&src, "\t%q\n", p)
+	}
+	src.WriteString(")\n\nvar _ = errors.Is\n\n")
+	src.WriteString("func TestGvcReplay(t *testing.T) {\n\tdefer func() {\n\t\tif r := recover(); r != nil {\n\t\t\tfmt.Printf(\"GVC-REPLAY panic %v\\n\", r)\n\t\t}\n\t}()\n")
+	src.WriteString(body.String())
+	src.WriteString("\tfmt.Println(\"GVC-REPLAY done\")\n}\n")
+	source := src.String()
+
+	tmp, err := os.MkdirTemp("", "gvc-replay")
+	if err != nil {
+		return false, "cannot create scratch directory", source, ""
+	}
+	defer os.RemoveAll(tmp)
+	tf := filepath.Join(tmp, "replay_test.go")
+	os.WriteFile(tf, []byte(source), 0o644)
+	ov := map[string]interface{}{"Replace": map[string]string{filepath.Join(ri.PkgDir, "gvc_replay_generated_test.go"): tf}}
+	ovb, _ := json.Marshal(ov)
+	ovf := filepath.Join(tmp, "overlay.json")
+	os.WriteFile(ovf, ovb, 0o644)
+	ctx, cancel := context.WithTimeout(context.Background(), 180*time.Second)
+	defer cancel()
+	cmd := exec.CommandContext(ctx, "go", "test", "-overlay", ovf, "-vet=off", "-v", "-count=1", "-timeout", "60s", "-run", "^TestGvcReplay$", ".")
+	cmd.Dir = ri.PkgDir
+	cmd.Env = append(os.Environ(), "GOFLAGS=-mod=mod", "GOPROXY=off", "GOSUMDB=off", "GOTOOLCHAIN=local", "GOCACHE="+envOr("GOCACHE", filepath.Join(os.Getenv("HOME"), ".cache/go-build")))
+	var out bytes.Buffer
+	cmd.Stdout = &out
+	cmd.Stderr = &out
+	cmd.Run()
+	output := out.String()
+	if len(output) > 6000 {
+		output = output[:6000]
+	}
+	var lines []string
+	for _, l := range strings.Split(output, "\n") {
+		if strings.HasPrefix(l, "GVC-REPLAY ") {
+			lines = append(lines, strings.TrimPrefix(l, "GVC-REPLAY "))
+		}
+	}
+	if len(lines) == 0 {
+		return false, "replay test did not run (build or set-up failure)", source, output
+	}
+	panicked := ""
+	for _, l := range lines {
+		if strings.HasPrefix(l, "panic ") {
+			panicked = strings.TrimPrefix(l, "panic ")
+		}
+	}
+	switch o.Kind {
+	case "idx", "slice", "div", "shift", "makelen", "nil", "panic":
+		if panicked != "" {
+			return true, "the real function panics on the model input: " + panicked, source, output
+		}
+		return false, "the real function did not panic on the model input", source, output
+	case "post":
+		if panicked != "" {
+			return true, "the real function panics on the model input (postcondition not reached): " + panicked, source, output
+		}
+		ok, note := checkPostWithOutputs(ri, o, lines)
+		return ok, note, source, output
+	}
+	if panicked != "" {
+		return true, "the real function panics on the model input: " + panicked, source, output
+	}
+	return false, fmt.Sprintf("obligation kind %s has no observable effect to compare; executed without panic", o.Kind), source, output
+}
+
+// checkPostWithOutputs binds model inputs and observed outputs and asks
+// whether the postcondition is false for them.
+func checkPostWithOutputs(ri *ReplayInfo, o *Obligation, lines []string) (bool, string) {
+	post := ri.Posts[o.Label]
+	if post == nil {
+		return false, "no generic postcondition for label " + o.Label
+	}
+	ar := ri.Arith
+	var asm []*Term
+	asm = append(asm, ri.PostAsm...)
+	constOf := func(v string, s *Sort) (*Term, bool) {
+		iv, ok := smtValueToInt(v, 0)
+		if !ok {
+			return nil, false
+		}
+		switch s.Kind {
+		case SBool:
+			return BoolC(iv == "true"), true
+		case SInt:
+			b, ok := new(bigInt).SetString(iv, 10)
+			if !ok {
+				return nil, false
+			}
+			return IntBig(b), true
+		case SBV:
+			b, ok := new(bigInt).SetString(iv, 10)
+			if !ok {
+				return nil, false
+			}
+			return BVC(b, s.W), true
+		}
+		return nil, false
+	}
+	for _, in := range ri.Inputs {
+		switch in.Kind {
+		case "int", "bool", "ptr":
+			if c, ok := constOf(o.Model[in.Name], in.T.S); ok {
+				asm = append(asm, Eq(in.T, c))
+			}
+		case "bytes", "string":
+			lc, ok := constOf(o.Model[in.Name+".len"], in.Len.S)
+			if !ok {
+				continue
+			}
+			asm = append(asm, Eq(in.Len, lc))
+			n := int(lc.Val.Int64())
+			for i := 0; i < n && i < 48; i++ {
+				v, ok := constOf(o.Model[fmt.Sprintf("%s[%d]", in.Name, i)], in.Arr.S.Elem)
+				if !ok {
+					v, _ = constOf("0", in.Arr.S.Elem)
+				}
+				var idx *Term
+				if ar.BV {
+					idx = BVBin("bvadd", in.Off, BVC64(int64(i), 64))
+				} else {
+					idx = IAdd(in.Off, IntC(int64(i)))
+				}
+				asm = append(asm, Eq(Select(in.Arr, idx), v))
+			}
+			if n > 48 {
+				return false, "model input longer than 48 bytes: outputs not compared"
+			}
+		}
+	}
+	// outputs
+	outs := map[string][]string{}
+	for _, l := range lines {
+		f := strings.Fields(l)
+		if len(f) >= 3 && f[0] == "out" {
+			outs[f[1]] = f[2:]
+		}
+	}
+	st := newSymtab()
+	st.collect(post, nil)
+	for _, res := range ri.Results {
+		f, ok := outs[res.Name]
+		if !ok {
+			return false, "result " + res.Name + " not observed"
+		}
+		switch v := res.V.(type) {
+		case Sc:
+			switch f[0] {
+			case "int":
+				b, ok := new(bigInt).SetString(f[1], 10)
+				if !ok {
+					return false, "bad observed integer"
+				}
+				if v.T.S.Kind == SBV {
+					asm = append(asm, Eq(v.T, BVC(b, v.T.S.W)))
+				} else {
+					asm = append(asm, Eq(v.T, IntBig(b)))
+				}
+			case "bool":
+				asm = append(asm, Eq(v.T, BoolC(f[1] == "true")))
+			case "error":
+				if f[1] == "nil" {
+					asm = append(asm, Eq(v.T, IntC(0)))
+				} else {
+					asm = append(asm, IGt(v.T, IntC(0)))
+					is := map[string]bool{}
+					if len(f) > 2 {
+						for _, s := range strings.Split(f[2], ",") {
+							if s != "" {
+								is[s] = true
+							}
+						}
+					}
+					for k, id := range ri.ErrIDs {
+						short := strings.TrimPrefix(k, ri.PkgPath+".")
+						if short == k {
+							continue
+						}
+						rel := Or(Eq(v.T, IntC(id)), Eq(errRoot(v.T), IntC(id)))
+						if is[short] {
+							asm = append(asm, rel)
+						} else {
+							asm = append(asm, Not(rel))
+						}
+					}
+				}
+			default:
+				return false, "result " + res.Name + " is not observable"
+			}
+		case Sl:
+			if f[0] != "bytes" {
+				return false, "result " + res.Name + " is not observable"
+			}
+			if _, usesOff := st.vars[v.Off.Name]; usesOff && v.Off.Op == "var" {
+				return false, "postcondition speaks about slice identity of " + res.Name + ": not comparable with observed bytes"
+			}
+			n, _ := strconv.Atoi(f[1])
+			asm = append(asm, Eq(v.Len, ar.idxC(int64(n))))
+			hexs := ""
+			if len(f) > 2 {
+				hexs = f[2]
+			}
+			if n > 256 {
+				return false, "observed result longer than 256 bytes: not compared"
+			}
+			for i := 0; i < n && 2*i+1 < len(hexs); i++ {
+				bv, _ := strconv.ParseUint(hexs[2*i:2*i+2], 16, 8)
+				var idx *Term
+				if ar.BV {
+					idx = BVBin("bvadd", v.Off, BVC64(int64(i), 64))
+				} else {
+					idx = IAdd(v.Off, IntC(int64(i)))
+				}
+				var c *Term
+				if ar.BV {
+					c = BVC64(int64(bv), 8)
+				} else {
+					c = IntC(int64(bv))
+				}
+				asm = append(asm, Eq(Select(v.Comp[0], idx), c))
+			}
+		default:
+			return false, "result " + res.Name + " is not observable"
+		}
+	}
+	q := &Obligation{Name: "replay", Assume: asm, Goal: post}
+	tmp, err := os.MkdirTemp("", "gvc-replayq")
+	if err != nil {
+		return false, "no scratch directory"
+	}
+	defer os.RemoveAll(tmp)
+	fn := filepath.Join(tmp, "q.smt2")
+	os.WriteFile(fn, []byte(q.smt(nil, false)), 0o644)
+	r := runSolver(context.Background(), solvers[0], fn, 20*time.Second)
+	switch r.status {
+	case "sat":
+		return true, "the real function's outputs on the model input falsify the postcondition " + o.Label
+	case "unsat":
+		return false, "the real function's outputs on the model input satisfy the postcondition (counterexample is spurious for the real code)"
+	}
+	return false, "could not evaluate the postcondition on the observed outputs (" + r.status + ")"
 }
